@@ -200,7 +200,14 @@ func c14All(r *Run, a *idxAnalyzer, fds []*ast.FuncDecl) {
 		if inParam == nil || sig.Results().Len() == 0 {
 			continue
 		}
+		// a decoder hands the rest of the input back to its caller as a remainder slice, or as the number
+		// of bytes it used (an int result its return summary bounds by the input's length)
 		returnsRemainder := false
+		for _, f := range a.retLE[obj] {
+			if f.lenOf && !f.geParam && f.param >= 0 && f.res < sig.Results().Len() && isIntType(sig.Results().At(f.res).Type()) {
+				returnsRemainder = true
+			}
+		}
 		lastIsErr := types.Identical(sig.Results().At(sig.Results().Len()-1).Type(), types.Universe.Lookup("error").Type())
 		for i := 0; i < sig.Results().Len(); i++ {
 			if sl, ok := sig.Results().At(i).Type().Underlying().(*types.Slice); ok {
@@ -236,7 +243,27 @@ func c14All(r *Run, a *idxAnalyzer, fds []*ast.FuncDecl) {
 			}
 			n++
 			key := fk + "#success-return"
-			if a.proveLE(rc.z, a.lenLin(sk), 0) {
+			// no input left: len(data) == 0, or the offset cursor the function slices the input at
+			// (data[pos:]) has reached len(data)
+			done := a.proveLE(rc.z, a.lenLin(sk), 0)
+			if !done {
+				ast.Inspect(fd.Body, func(n ast.Node) bool {
+					se, ok := n.(*ast.SliceExpr)
+					if !ok || se.Low == nil || se.High != nil || done {
+						return !done
+					}
+					if id, ok := ast.Unparen(se.X).(*ast.Ident); !ok || info.Uses[id] != info.Defs[inParam] {
+						return true
+					}
+					if cur, ok := a.lin(se.Low); ok {
+						if _, single := cur.single(); single && a.proveLE(rc.z, linSub(a.lenLin(sk), cur), 0) {
+							done = true
+						}
+					}
+					return !done
+				})
+			}
+			if done {
 				r.ok(key, rc.rs.Pos(), "success is returned only when no input is left")
 			} else {
 				r.bad(key, rc.rs.Pos(), fmt.Sprintf("returns success on a path where len(%s) is not known to be 0: trailing bytes are silently dropped", inParam.Name))
